@@ -15,6 +15,8 @@ def run(tier, seed):
             inputs="pk: all-00, all-FF, t1 = 1023 everywhere, single-bit walks, random strings; sk: generated keys re-serialised twice; derived keys")
     common.nohooks_leg(chk, "roundtrip", profile="checked", nrandom=16)
     common.mc_leg(chk, "MC_API", tier=tier)
+    # the same serialisation invariant (one string per lineage, injective) without bounds: TLAPS
+    common.tlaps_leg(chk)
     common.mc_variants(chk, "MC_Keys", (44, 65, 87), tier=tier, workers=2)
     chk.cov["exhaustive"] = False
     return chk.finish()
